@@ -23,7 +23,9 @@
              runs each pair on two real endpoints and the driver compares. *)
 EXTENDS Integers, Sequences, FiniteSets, TLC, Json
 
-CONSTANTS T,          \* enumeration: number of dimensions varied at once (1, 2 or 3); 0 = walk (simulation)
+CONSTANTS BasePoint,  \* base point of the enumeration: 1 = certificate (ECDSA) DTLS 1.2, 2 = pre-shared key suites (plain and ECDHE)
+                      \* on both sides, 3 = DTLS 1.3 on both sides, 4 = certificate DTLS 1.2 with client certificate and ALPN / SRTP offered
+          T,          \* enumeration: number of dimensions varied at once (1, 2 or 3); 0 = walk (simulation)
           PickLowest  \* deliberately broken oracle (vacuity guard): negotiate the LOWEST common version
 
 -----------------------------------------------------------------------------
@@ -228,7 +230,13 @@ NDims == Len(DimNames)
 DimSize == << 3, 3, Len(SuiteLists), Len(SuiteLists), Len(CCreds), Len(SCreds), Len(CurveLists), Len(CurveLists),
               Len(SigLists), Len(SigLists), 3, 3, Len(SrtpLists), Len(SrtpLists), Len(AlpnLists), Len(AlpnLists),
               3, 3, 2 >>
-Base == [d \in 1..NDims |-> 1]       \* DTLS 1.2, default lists, certificate (ECDSA) server, EMS request, nothing optional
+Base1 == [d \in 1..NDims |-> 1]      \* DTLS 1.2, default lists, certificate (ECDSA) server, EMS request, nothing optional
+\* combinations that need several coordinated dimensions are out of reach of "<= 3 dimensions away from one base point":
+\* further base points put the enumeration next to them
+Base == CASE BasePoint = 2 -> [Base1 EXCEPT ![3] = 6, ![4] = 6, ![5] = 2, ![6] = 3]        \* PSK + ECDHE_PSK suites, PSK credentials
+          [] BasePoint = 3 -> [Base1 EXCEPT ![1] = 2, ![2] = 2]                            \* DTLS 1.3 on both sides
+          [] BasePoint = 4 -> [Base1 EXCEPT ![5] = 3, ![13] = 3, ![14] = 3, ![15] = 3, ![16] = 3]   \* client certificate, SRTP and ALPN lists
+          [] OTHER -> Base1
 
 CfgC(a) == [ver |-> Vers[a[1]], suites |-> SuiteLists[a[3]], psk |-> CCreds[a[5]].psk, cert |-> CCreds[a[5]].cert,
             curves |-> CurveLists[a[7]], sigs |-> SigLists[a[9]], ems |-> a[11] - 1, srtp |-> SrtpLists[a[13]],
